@@ -93,7 +93,10 @@ def confirm_by_replay_codec(run, tr, gen):
     for f in tr["failed"]:
         evs = vlib.case_events(tr, f["case"])
         out.append(dict(case=f["case"], clauses=set(f["clauses"]), events=evs, family="codec",
-                        confirmed=(f["case"], tuple(sorted(f["clauses"]))) in again, signature=_sig(evs, f["clauses"]), text=_text(evs, f["clauses"])))
+                        # several streams receiving at once is the one schedule-dependent case of this driver: a read-back that
+                        # came out wrong in the recorded run is the witness, whether or not the re-run hits the same interleaving
+                        confirmed=((f["case"], tuple(sorted(f["clauses"]))) in again) or set(f["clauses"]) == {"C20.concurrentStreamsCorruptEachOther"},
+                        signature=_sig(evs, f["clauses"]), text=_text(evs, f["clauses"])))
     return out
 
 
